@@ -136,6 +136,10 @@ fn counts_any<'a, D: DDNNFPtr<'a>>(p: D, codes: &[u64], total: usize) -> String 
         e.0 + 0.0, e.1 + 0.0, c.re + 0.0, c.im + 0.0, coeffs.join(","))
 }
 
+fn levels_of(b: &AnyBuilder, total: usize) -> Vec<usize> {
+    (0..total).map(|l| b.var_at_level(l) as usize).collect()
+}
+
 pub fn run(case: &str, st: &mut Stats) -> Outcome {
     let prog = parse(case);
     let tail = &prog.rest;
@@ -183,6 +187,19 @@ pub fn run(case: &str, st: &mut Stats) -> Outcome {
         fails.push(format!("integer weights: count {ri} but the sum over the variables each sub-function depends on is {dep}"));
     }
     line.push_str(&format!("int={} ", ri as i128));
+    // the same diagram counted again in the same weight type with other weights (oracle only): a
+    // value memoised by the first count must not leak into the second
+    let iw2: Vec<(i128, i128)> = iw.iter().enumerate().map(|(v, (l, h))| (h + 1 + (v as i128 % 3), l + 2)).collect();
+    let real2: WmcParams<RealSemiring> = WmcParams::new(HashMap::from_iter((0..total).map(|v| (VarLabel::new(v as u64), (RealSemiring(iw2[v].0 as f64), RealSemiring(iw2[v].1 as f64))))));
+    let ri2 = p.unsmoothed_wmc(&real2).0;
+    let dep2 = dep_sum(&t, &levels_of(&b, total), 0, 0, &iw2);
+    if ri2.fract() != 0.0 || ri2 as i128 != dep2 {
+        fails.push(format!("integer weights, second count on the same diagram with other weights: count {ri2} but the sum is {dep2}"));
+    }
+    let ri3 = p.unsmoothed_wmc(&real).0;
+    if ri3 != ri {
+        fails.push(format!("integer weights, third count with the first weights again: {ri3} after {ri}"));
+    }
     // --- Boolean evaluation
     let ev = p.evaluate(&asg);
     let a_idx = (0..total).fold(0usize, |acc, v| acc | ((asg[v] as usize) << v));
@@ -190,6 +207,16 @@ pub fn run(case: &str, st: &mut Stats) -> Outcome {
         fails.push(format!("evaluate({asg:?}) = {ev} but the diagram denotes {}", t[a_idx]));
     }
     line.push_str(&format!("ev={}", ev as u8));
+    // evaluate on every assignment, one after the other on the same diagram (oracle only)
+    if total <= 8 {
+        for a in 0..(1usize << total) {
+            let asg2: Vec<bool> = (0..total).map(|v| (a >> v) & 1 == 1).collect();
+            if p.evaluate(&asg2) != t[a] {
+                fails.push(format!("evaluate({asg2:?}) = {} but the diagram denotes {} (after evaluations of other assignments)", !t[a], t[a]));
+                break;
+            }
+        }
+    }
     // --- normalised weights in the other shipped semirings (oracle only): probabilities k/8,
     // utilities / imaginary parts / linear coefficients cancelling between low and high
     let pr8 = |c: u64| (c % 9) as f64 / 8.0;
